@@ -172,7 +172,10 @@ package jhttp
 //@   modifies whStatus(w), whCalls(w), wbCalls(w), wbJSON(w), wjObj(w), clientCalls, clientBatches, monitor(Client, b.local.Client), held(fieldaddr(b.local.Client, mu)), chSends, slotId, jrpc2.Response.err, jrpc2.Response.result, jrpc2.Response.id, fired, jsonDecodes, jsonSource
 //@   ensures[C18:method-gate] !called("call.ServeHTTP#1") && b.parseReq == nil && req.Method != "POST" ==> whStatus(w) == 405 && clientBatches == old(clientBatches) && clientCalls == old(clientCalls)
 //@   ensures[C18:type-gate] called("call.ParseMediaType#1") && callres("call.ParseMediaType#1", 0, "string") != "application/json" ==> whStatus(w) == 415 && clientBatches == old(clientBatches)
-//@   ensures[C18:charset-gate] called("call.ParseMediaType#1") && in(callres("call.ParseMediaType#1", 1, "map[string]string"), "charset") && lookup(callres("call.ParseMediaType#1", 1, "map[string]string"), "charset") != "utf-8" && lookup(callres("call.ParseMediaType#1", 1, "map[string]string"), "charset") != "utf8" ==> whStatus(w) == 415 && clientBatches == old(clientBatches)
+//@   ensures[C18:charset-gate] called("call.ParseMediaType#1") && in(callres("call.ParseMediaType#1", 1, "map[string]string"), "charset") && lowerOf(lookup(callres("call.ParseMediaType#1", 1, "map[string]string"), "charset")) != "utf-8" && lowerOf(lookup(callres("call.ParseMediaType#1", 1, "map[string]string"), "charset")) != "utf8" ==> whStatus(w) == 415 && clientBatches == old(clientBatches)
+// ... and only those: a JSON body declared as UTF-8 in any letter case (or with
+// no charset at all) passes the gate and is served.
+//@   ensures[C18:utf8-in-any-case-is-served] b.parseReq == nil && req.Method == "POST" && called("call.ParseMediaType#1") && callres("call.ParseMediaType#1", 0, "string") == "application/json" && (!in(callres("call.ParseMediaType#1", 1, "map[string]string"), "charset") || lowerOf(lookup(callres("call.ParseMediaType#1", 1, "map[string]string"), "charset")) == "utf-8" || lowerOf(lookup(callres("call.ParseMediaType#1", 1, "map[string]string"), "charset")) == "utf8") ==> called("call.serveInternal#1")
 //@   ensures[C18:failure-is-500] called("call.serveInternal#1") && callres("call.serveInternal#1", 0, "error") != nil ==> whStatus(w) == 500
 //@   ensures[C18:one-batch-at-most] clientBatches == old(clientBatches) || clientBatches == old(clientBatches) + 1
 //@   ensures[C18:unlocked] !held(fieldaddr(b.local.Client, mu))
